@@ -20,7 +20,7 @@ package tbls
 //@ ensures r1 == nil ==> forall(k, 1, int(total)+1, has(r0, k))
 //@ canary r1 != nil
 //@ loop 1 invariant 1 <= i && i <= int(threshold) && len(poly) == int(threshold) && poly[0] == p
-//@ loop 2 invariant 1 <= i && (i <= int(total)+1 || int(total) < 1) && ncalls(sk.Set) == i-1 && ncalls(blsID.SetDecString) == i-1 && ncalls(blsID.SetHexString) == 0
+//@ loop 2 invariant 1 <= i && i <= int(total)+1 && ncalls(sk.Set) == i-1 && ncalls(blsID.SetDecString) == i-1 && ncalls(blsID.SetHexString) == 0
 //@ loop 2 invariant forallk(k, ret, 1 <= k && k < i) && forall(k, 1, i, has(ret, k))
 //@ loop 2 invariant len(poly) == int(threshold) && poly[0] == p
 
